@@ -1,20 +1,22 @@
 #!/bin/bash
-# development helper: for every seeded change, apply it to /repo's working tree, run the listed checks
-# (correspondence + oracles only: the proofs do not depend on /repo), undo. Output: seeded/_matrix.jsonl
+# development helper: for every seeded change (seeded/_incoming/<id>/<pattern>), apply it to /repo's working tree, run the
+# listed checks (correspondence + oracles only: the proofs do not depend on /repo) in parallel, undo.
+# usage: matrix.sh [pattern=[ABCD]] [output=seeded/_matrix_final.jsonl]
 declare -A N=( [C01]="C01 C09 C10" [C02]="C02 C16 C01" [C03]="C03 C11 C12 C13" [C04]="C04 C12" [C05]="C05 C06" [C06]="C06 C05"
  [C07]="C07 C16 C02" [C08]="C08 C17" [C09]="C09 C01" [C10]="C10 C01" [C11]="C11 C03 C04" [C12]="C12 C03 C15" [C13]="C13 C03"
  [C14]="C14 C15" [C15]="C15 C14 C12" [C16]="C16 C02 C07" [C17]="C17 C08" [C18]="C18" [C19]="C19 C14" )
 export HV_DEV_NO_PROOF=1
-out=${2:-/verif/seeded/_matrix.jsonl}; : > $out
-src=/verif/seeded/_incoming
-pat=${1:-[AB]}
-for d in $src/*/$pat; do
+pat=${1:-[ABCD]}
+out=${2:-/verif/seeded/_matrix_final.jsonl}; : > $out
+for d in /verif/seeded/_incoming/*/$pat; do
   p=$(basename $(dirname $d)); x=$(basename $d)
   git -C /repo checkout -q -- . ; git -C /repo apply $d/patch.diff || { echo "{\"m\":\"$p/$x\",\"applies\":false}" >> $out; continue; }
+  (cd /verif/tools && python3 -c "import hvlib as H; H.build_harness(False)" >/dev/null 2>&1)
   for c in ${N[$p]}; do
-    r=$(/verif/tools/check $c --tier quick 2>&1 | tail -2 | tr '\n"\\' '   ' | cut -c1-420)
-    echo "{\"m\":\"$p/$x\",\"check\":\"$c\",\"result\":\"$r\"}" >> $out
+    ( r=$(timeout 1500 /verif/tools/check $c --tier quick 2>&1 | tail -2 | tr '\n"\\' '   ' | cut -c1-420)
+      echo "{\"m\":\"$p/$x\",\"check\":\"$c\",\"result\":\"$r\"}" >> $out ) &
   done
+  wait
   git -C /repo checkout -q -- .
 done
 git -C /repo status --short
